@@ -30,10 +30,7 @@ func (c *Ctx) callModel(fn *ssa.Function, args []Value) (Value, bool) {
 			return r, true
 		}
 	}
-	full := fn.String()
-	if o := fn.Origin(); o != nil {
-		full = o.String()
-	}
+	full := infoOf(fn).model
 	if m, ok := models[full]; ok {
 		c.Ex.noteModel(full)
 		return m(c, fn, args), true
